@@ -24,7 +24,6 @@ import struct
 
 import txaio
 
-from . import rfc6455_ref as ref
 from .wamp_harness import RouterPeer
 
 MISSING = "<missing>"
